@@ -249,6 +249,8 @@ static void mutate_tree(void)
  * and dots (or none), at most 100 bytes long. */
 static void keep_magic_lines_short(void)
 {
+    /* the version_compare defects are repaired in the tree now (see C17): magic lines stay hostile.  Set C11_NORMALISE_MAGIC=1 to get the old behaviour. */
+    if (!getenv("C11_NORMALISE_MAGIC")) return;
     for (int i = 0; i < cx_nfiles; i++) {
         cx_buf *b = &cx_files[i].data;
         if (b->n < 8 || strncasecmp(b->b, "<libast-", 8)) continue;
